@@ -17,6 +17,7 @@ if repo != "/repo":
         if not os.path.exists(os.path.join(sh, d)):
             os.symlink(os.path.join(H, d), os.path.join(sh, d))
     H = sh
+    subprocess.run([sys.executable, os.path.join(ROOT, "tools", "consts_from_source.py"), repo, os.path.join(H, "consts.txt")], stdout=subprocess.DEVNULL)
 env = dict(os.environ, CARGO_NET_OFFLINE="true")
 r = subprocess.run(["cargo", "build", "--offline", "--quiet"], cwd=H, env=env, stdout=subprocess.PIPE, stderr=subprocess.STDOUT)
 if r.returncode:
